@@ -415,7 +415,9 @@ func flowCmd(args []string) int {
 	if c.Replay != "" {
 		for _, rc := range readCases(c.Replay) {
 			nw := atoiDef(rc.Init, 0, 1)
-			runFlowCase(tw, st, nil, rc.ID, nw, 0, mk(), rc.Ops)
+			if !runFlowCase(tw, st, nil, rc.ID, nw, 0, mk(), rc.Ops) {
+				break
+			}
 		}
 		st.Write(c.Stats)
 		return 0
@@ -425,13 +427,18 @@ func flowCmd(args []string) int {
 		cr := r.Fork()
 		nw := 1 + cr.Intn(3)
 		n := 1 + cr.Intn(*maxlen)
-		runFlowCase(tw, st, cr, fmt.Sprintf("%s%d", pre, k), nw, n, mk(), nil)
+		if !runFlowCase(tw, st, cr, fmt.Sprintf("%s%d", pre, k), nw, n, mk(), nil) {
+			break
+		}
 	}
 	st.Write(c.Stats)
 	return 0
 }
 
-func runFlowCase(tw *trace.W, st *stats, r *rng.R, id string, nw, n int, api *flowAPI, replayOps [][]string) {
+// runFlowCase returns false if waiters were still parked after the flow had been cancelled at the end
+// of the case: they will never return (lost wake-up), and being parked in the marker frame they would
+// make every later quiescence wait run into its grace period.
+func runFlowCase(tw *trace.W, st *stats, r *rng.R, id string, nw, n int, api *flowAPI, replayOps [][]string) bool {
 	pools := make([]*pool, api.ngates)
 	for i := range pools {
 		pools[i] = newPool(nw)
@@ -546,6 +553,20 @@ func runFlowCase(tw *trace.W, st *stats, r *rng.R, id string, nw, n int, api *fl
 	if st.Cases <= 2 {
 		st.Samples = append(st.Samples, fmt.Sprintf("%s waiters/gate=%d len=%d", id, nw, steps))
 	}
+	leaked := 0
+	for _, p := range pools {
+		_, parked, _ := p.counts()
+		leaked += parked
+	}
+	if leaked > 0 {
+		// one more observation for the model: everything cancelled, nobody may still be parked
+		tw.Op("%s", "cancelWithError nil")
+		tw.Obs("ret=- ws=%s", show())
+		tw.Comment("leak case=%s: %d waiter(s) still parked after the whole flow was cancelled; run stopped", id, leaked)
+		st.Notes = append(st.Notes, fmt.Sprintf("case %s: %d waiter(s) still parked after the whole flow was cancelled; no further cases generated", id, leaked))
+		return false
+	}
+	return true
 }
 
 func firstWord(s string) string {
